@@ -429,6 +429,15 @@ Fixpoint zs_eqb (a b : list Z) : bool :=
 Definition sui_agree (observed : list addr) (l : list addr) : bool :=
   forallb (fun a => mem a l) observed && forallb (fun a => mem a observed) l.
 
+(* the side conditions the theorems assume, checked on every observed case *)
+Definition hyps_ok (c : case) : bool :=
+  let e := c_env c in let m := c_msg c in let o := c_opq c in
+  (0 <=? e_rent e) && wf (c_top c) && (0 <=? m_price m) && (0 <=? m_value m) && (0 <=? m_gas m)
+  && (0 <=? o_gleft o) && (o_gleft o <=? m_gas m) && (0 <=? o_refctr o)
+  && (if m_isETX m then m_price m =? 0 else true) && Bool.eqb (m_isETX m) (c_inbound c)
+  && (0 <=? m_nz m) && (0 <=? m_z m) && (0 <=? m_al m) && (0 <=? m_keys m)
+  && forallb (fun p => 0 <=? snd p) (c_pre c).
+
 Definition case_ok (c : case) : bool :=
   let e := c_env c in let m := c_msg c in let b := c_obs c in
   let s0 := init (c_pre c) in
@@ -436,7 +445,7 @@ Definition case_ok (c : case) : bool :=
   let '(s1, r) := transition e m (c_opq c) (c_top c) s0' in
   let sf := if is_invalid r then s1 else finalise s1 in
   let sf' := if c_inbound c then unstage (e_zero e) (bget (e_zero e) (c_pre c)) sf else sf in
-  wf (c_top c)
+  hyps_ok c
   && match r with
      | RInvalid => b_invalid b
      | RDone used failed => negb (b_invalid b) && (used =? b_used b) && Bool.eqb failed (b_failed b)
